@@ -80,10 +80,13 @@ class Run:
         self.instances.append({'rule': rule, 'file': rel, 'function': qual,
                                'construct': fd.construct[:200], 'verdict': 'VIOLATED', 'detail': msg})
 
-    def undecided(self, rule, f, construct, reason):
+    def undecided(self, rule, f, construct, reason, declared=False):
+        """A site the rule could not read.  Unless `declared` (a limitation of the rule that exists on the reference tree and is
+        listed in DESIGN.md), an unread site makes the run end as ANALYSIS-ERROR (exit 2): a pass would claim a clause that was
+        not decided."""
         rel, qual = self._site(f)
         self.undecided_sites.append({'rule': rule, 'file': rel, 'function': qual,
-                                     'construct': self._construct(construct)[:200], 'reason': reason})
+                                     'construct': self._construct(construct)[:200], 'reason': reason, 'declared': bool(declared)})
 
     def check(self, cond, rule, f, construct, msg, detail=''):
         """Record a decided instance: discharged if cond else a violation."""
@@ -93,15 +96,15 @@ class Run:
             self.violation(rule, f, construct, msg)
         return cond
 
-    def count(self, rule):
-        return sum(1 for i in self.instances if i['rule'] == rule or i['rule'].startswith(rule + '.'))
+    def count(self, rule, exact=False):
+        return sum(1 for i in self.instances if i['rule'] == rule or (not exact and i['rule'].startswith(rule + '.')))
 
-    def floor(self, rule, n, what=''):
+    def floor(self, rule, n, what='', exact=False):
         """`n` instances of the rule were confirmed by hand on the reference tree.  The run fails (analysis error) when the rule
         could not read a site (an UNDECIDED site of this rule exists and the count is short) or when it matched fewer than half
         of them (a rule that matches nothing passes vacuously forever).  A smaller shortfall without any unread site - two
         sites merged into one by a refactoring - is recorded in the evidence and does not fail the run."""
-        found = self.count(rule)
+        found = self.count(rule, exact)
         self.floors[rule] = (found, n)
         if found >= n or self._new_findings():
             return
@@ -166,7 +169,7 @@ class Run:
         for rule, (found, fl) in sorted(self.floors.items()):
             out.append('[%s]   floor %-8s found %d >= %d' % (self.prop, rule, found, fl))
         for u in self.undecided_sites:
-            out.append('[%s]   UNDECIDED %s %s::%s %s -- %s' % (self.prop, u['rule'], u['file'], u['function'],
+            out.append('[%s]   UNDECIDED%s %s %s::%s %s -- %s' % (self.prop, ' (declared limit)' if u.get('declared') else '', u['rule'], u['file'], u['function'],
                                                                u['construct'][:70], u['reason']))
         for d in self.decided:
             out.append('[%s]   decided: %s' % (self.prop, d))
@@ -250,6 +253,11 @@ class Run:
         if (os.path.realpath(self.repo.root) == '/repo' and not os.environ.get('PCVERIF_NO_EVIDENCE')) or os.environ.get('PCVERIF_WRITE_EVIDENCE'):
             with open(os.path.join(evdir, '%s.json' % self.prop), 'w') as fh:
                 json.dump(ev, fh, indent=1, default=str)
+        unread = [u for u in self.undecided_sites if not u.get('declared')]
+        if not new and unread:
+            out.append('ANALYSIS-ERROR property=%s %d site(s) could not be read by their rule, so the property is not decided on this tree: %s' % (
+                self.prop, len(unread), '; '.join('%s %s::%s %s (%s)' % (u['rule'], u['file'], u['function'], u['construct'][:50], u['reason'][:80])
+                                                   for u in unread[:4])))
         if not self.quiet:
             print('\n'.join(out))
-        return 1 if new else 0
+        return 1 if new else (2 if unread else 0)
